@@ -11,6 +11,7 @@ CONFIGS = {
     's300': ('xtl::xbasic_fixed_string<char, 300, xtl::buffer | xtl::store_size, xtl::string_policy::throwing_error>', 300, 'sizefield'),
     'p255': ('xtl::xbasic_fixed_string<char, 255, xtl::buffer | xtl::store_size, xtl::string_policy::throwing_error>', 255, 'packed'),
     's256': ('xtl::xbasic_fixed_string<char, 256, xtl::buffer | xtl::store_size, xtl::string_policy::throwing_error>', 256, 'sizefield'),
+    'z7': ('xtl::xbasic_fixed_string<char, 7, xtl::buffer, xtl::string_policy::throwing_error>', 7, 'strlen'),
     'z16': ('xtl::xbasic_fixed_string<char, 16, xtl::buffer, xtl::string_policy::throwing_error>', 16, 'strlen'),
 }
 
@@ -62,7 +63,7 @@ REC_ALIAS = [(r'xtl::xbasic_fixed_string<.*>', 'fs'), (r'xtl::detail::fixed_\w+<
 def build(tier, workdir, seed, prop=PROP):
     from props import C01_contracts
     units, jobs = [], []
-    cfgs = ['p7', 'p255', 's256']
+    cfgs = ['p7', 'p255', 's256', 'z7']
     heavy = tier == 'thorough' or os.environ.get('XV_FS_HEAVY') is not None
     HEAVY = ('append', 'erase', 'insert', 'replace', 'resize', 'compare__ul_ul_rfs')      # copy loops over a 257-element member array: see DESIGN.md (C01 reach)
     for cfg in cfgs:
@@ -70,8 +71,9 @@ def build(tier, workdir, seed, prop=PROP):
         ctext = C01_contracts.generate(n, layout)
         u = Unit('fs_' + cfg, inst(cfg), select, ctext, REC_ALIAS, defines=['NDEBUG'], opaque=[opaque], partial=True).lower(workdir)
         units.append(u)
-        todo = [c for c in u.contracts if c in u.lw.loops and not (cfg != 'p7' and not heavy and any(('fs__' + h) in c for h in HEAVY))]
-        jobs += u.contract_jobs(prop, aliases=todo, timeout=3600 if heavy else 900, inline_all=True)
+        todo = [c for c in u.contracts if c in u.lw.loops and not (cfg not in ('p7', 'z7') and not heavy and any(('fs__' + h) in c for h in HEAVY))
+                and not (cfg == 'z7' and 'compare' in c)]
+        jobs += u.contract_jobs(prop, aliases=todo, timeout=3600 if heavy else 900, inline_all=True, pre_unwind=(n + 3 if layout == 'strlen' else None))
         if cfg == 'p7':
             # search family: capacity-bounded proofs (all loops, including the char_traits model loops, unwound: bound = capacity + 3)
             sel_s = lambda fn, q, lw: (q.startswith('dflt_') and not lw.tu.in_repo(fn)) or (q.startswith('xtl::xbasic_fixed_string::') and re.match(r'r?find', fn.get('name', '')) and m_is_counted(fn, lw))
@@ -84,13 +86,13 @@ def build(tier, workdir, seed, prop=PROP):
             'trusted_base': sorted(set(sum([list(u.std.used) for u in units], []))) + ['clang 14 AST; xtl2c lowering rules (DESIGN.md 3.2)',
                 'std::char_traits / std::copy / std::copy_backward model in model/xv_chr.h: C with loop contracts discharged in place (search proofs: exact, unwound to capacity + 3)'],
             'assumptions': ['configurations: char; packed layout N=7 (all functions under contract) and N=255 (storage class + light functions; copy-loop functions in the thorough tier), size-field layout N=256 (same split); throwing policy; NDEBUG as in the test build',
-                            'the strlen-sized (numpy) layout, wchar_t/char16_t, the silent policy and the overloads taking std::string / initializer_list / iterators / C strings are NOT under contract (listed in not_reached)',
+                            'the strlen-sized (numpy) layout is under contract for N=7 (configuration z7: size() == position of the first NUL, characters written must be non-NUL, every loop unwound to the capacity); wchar_t/char16_t, the silent policy and the overloads taking std::string / initializer_list / iterators / C strings are NOT under contract (listed in not_reached)',
                             'N is a compile-time constant: "every N" is covered by the boundary capacities where the layout selection flips (255 / 256) and a small one',
                             'counted-needle search overloads are not under contract (nested unwinding did not finish); the character overloads with explicit and with DEFAULTED position are, for capacity 7, by complete unwinding',
                             'histories: every operation is proved from an arbitrary wf state (any length 0..N, any bytes incl. stale bytes after the terminator), induction over the history is the meta-argument',
                             'precondition taken from the property: size() + count does not overflow size_t; counts of fresh argument ranges bounded by 4N'],
             'coverage_extra': {'configs': cfgs, 'heavy_functions_in_this_tier': bool(heavy),
-                               'not_reached': ['strlen-sized layout (xtl::buffer without store_size)', 'silent_error policy', 'char16_t / wchar_t', 'std::string / initializer_list / iterator-pair / C-string overloads',
+                               'not_reached': ['strlen-sized layout for capacities other than 7; compare() in that layout', 'silent_error policy', 'char16_t / wchar_t', 'std::string / initializer_list / iterator-pair / C-string overloads',
                                                'operator+ family, stream operators, getline, swap, substr', 'find/rfind/find_*_of with a counted needle']}}
 
 
@@ -105,7 +107,7 @@ def replay(ctx, job, ob, steps, base):
     seed = int(os.environ.get('VERIF_SEED', '0') or 0)
     outs = []
     for opname in (op, ''):
-        prog = '#define CAP %d\n#define XV_OP "%s"\n#define SEED %du\n' % (cap, opname, seed) + src
+        prog = ('#define XV_ZLAYOUT 1\n' if 'fs_z7' in job.name else '') + '#define CAP %d\n#define XV_OP "%s"\n#define SEED %du\n' % (cap, opname, seed) + src
         rc, out = native_run(prog, base, extra=SAN)
         outs.append('search ending with operation "%s": rc=%s\n%s' % (opname or 'any', rc, (out or '')[-1500:]))
         if rc not in (0, None):
